@@ -324,23 +324,72 @@ def check(ctx, run):
     run.ob("R4", "dealloc folded: releases into the class of the given size, large sizes through the non-cached list", de.site, bad_d is None, witness=bad_d or "ok", what=bad_d or "")
     A = "SimpleStringCacheAllocator"
     f = prog.fn(A + "::alloc_memory")
-    rets = [render(f, f.node(n.get("value"))) for n in f.walk() if n["k"] == "ReturnStmt"]
-    run.ob("R4", "adaptor alloc_memory forwards the size", f.site, rets == ["cache_.alloc(%s)" % f.params[0]["name"]], witness=rets)
+    run.analysed(f)
+    asked = []
+    ev = Evaluator(prog, f, env=dict(zip([q["name"] for q in f.params], (48, ("str", "file"), 7))), calls={CA + "::alloc": lambda *a_: (asked.append(a_[-1]), 5150)[1]})
+    try:
+        ev.run_blocks(f.entry, max_steps=200)
+        r = getattr(ev, "ret", None)
+    except Unknown as u:
+        r = "unknown: %s" % u
+    run.ob("R4", "adaptor alloc_memory folded: asks the cache for the size and returns its buffer", f.site, asked == [48] and r == 5150, witness={"asked": asked, "returns": r})
     f = prog.fn(A + "::free_memory")
-    cs = [render(f, c) for c in f.calls()]
-    run.ob("R4", "adaptor free_memory forwards (memory, size) in order", f.site, cs == ["cache_.dealloc(%s, %s)" % (f.params[0]["name"], f.params[1]["name"])], witness=cs)
-    gd = prog.fn("GlobalSimpleStringCache::~GlobalSimpleStringCache")
+    run.analysed(f)
+    asked = []
+    ev = Evaluator(prog, f, env=dict(zip([q["name"] for q in f.params], (5150, 48, ("str", "file"), 7))), calls={CA + "::dealloc": lambda *a_: (asked.append(tuple(a_[-2:])), 0)[1]})
+    try:
+        ev.run_blocks(f.entry, max_steps=200)
+    except Unknown as u:
+        asked.append("unknown: %s" % u)
+    run.ob("R4", "adaptor free_memory folded: hands (memory, size) to the cache in that order, once", f.site, asked == [(5150, 48)], witness=[str(x) for x in asked])
+    # the global cache folded against a model of the "current string allocator" cell: installing puts an adaptor in front of the
+    # allocator that was current (the cache gets its memory from that one); tearing down puts that allocator back, returns every
+    # buffer - also those still in use - exactly once, and only then deletes the adaptor
+    G = "GlobalSimpleStringCache"
+    gct = [f_ for f_ in prog.methods_of(G) if f_.kind == "ctor"][0]
+    gd = [f_ for f_ in prog.methods_of(G) if f_.kind == "dtor"][0]
+    run.analysed(gct)
     run.analysed(gd)
-    cs = [render(gd, c) for c in gd.calls()]
-    dele = [render(gd, n) for n in gd.walk() if n["k"] == "CXXDeleteExpr"]
-    seq = [c for c in cs if c.startswith(("SimpleString::setStringAllocator", "cache_."))]
-    ok = seq == ["SimpleString::setStringAllocator(allocator_->originalAllocator())", "cache_.clearAllIncludingCurrentlyUsedMemory()"] and dele == ["delete allocator_"]
-    run.ob("R4", "global cache teardown: restore the string allocator, return every buffer (also those still in use), delete the adaptor", gd.site, ok, witness={"calls": seq, "delete": dele},
-           what="" if ok else "buffers still held by live strings are never returned to the underlying allocator")
-    gct = prog.fn("GlobalSimpleStringCache::GlobalSimpleStringCache")
-    cs = [render(gct, c) for c in gct.calls()]
-    ok = any("SimpleStringCacheAllocator(cache_, SimpleString::getStringAllocator())" in c for c in cs) and "SimpleString::setStringAllocator(allocator_)" in cs
-    run.ob("R4", "global cache installation wraps the current string allocator", gct.site, ok, witness=cs)
+    cur, seq = {"v": 7000}, []
+    hooks = string_hooks({"SimpleString::getStringAllocator": lambda *a_: cur["v"], "SimpleString::setStringAllocator": lambda *a_: (cur.__setitem__("v", a_[-1]), seq.append(("set", a_[-1])), 0)[2],
+                          CA + "::setAllocator": lambda *a_: (seq.append(("cache allocator", a_[-1])), 0)[1],
+                          CA + "::clearAllIncludingCurrentlyUsedMemory": lambda *a_: (seq.append(("clear all",)), 0)[1], CA + "::clearCache": lambda *a_: (seq.append(("clear free only",)), 0)[1]})
+    AINL = {g.qn for g in prog.functions.values() if g.qn.startswith((A + "::", G + "::"))}
+
+    def fold_global(f_, env):
+        ev = Evaluator(prog, f_, env=dict(env, this=50), calls=hooks)
+        ev.heap_mode = True
+        ev.pass_object = True
+        ev.objects = True
+        ev.inline = AINL - {f_.qn}
+        ev.optional_stubs = set(hooks)
+        ev.run_blocks(f_.entry, max_steps=3000)
+        return ev
+    try:
+        ev = fold_global(gct, {})
+        adaptor = cur["v"]
+        fed = [x[1] for x in seq if x[0] == "cache allocator"]
+        ok = isinstance(adaptor, int) and adaptor != 7000 and fed[-1:] == [7000]
+        run.ob("R4", "global cache installation folded: an adaptor becomes the current string allocator and the cache draws its memory from the allocator that was current", gct.site, ok,
+               witness={"current string allocator": adaptor, "the cache's underlying allocator": fed})
+        state = {k_: v_ for k_, v_ in ev.env.items() if k_ != "this"}
+        del seq[:]
+        ev2 = fold_global(gd, state)
+        dels = list(getattr(ev2, "deleted", []))
+        order = [x[0] for x in seq if x[0] in ("clear all", "clear free only")]
+        t_clear = next((i_ for i_, t_ in enumerate(ev2.trace) if str(t_[0]).endswith("clearAllIncludingCurrentlyUsedMemory")), None)
+        t_del = next((i_ for i_, t_ in enumerate(ev2.trace) if t_[0] == "delete"), None)
+        why = ""
+        if cur["v"] != 7000:
+            why = "the string allocator that was current before the cache is not put back (current: %s)" % cur["v"]
+        elif order != ["clear all"]:
+            why = "buffers still held by live strings are not returned to the underlying allocator exactly once (%s)" % (order or "nothing cleared")
+        elif dels != [adaptor] or t_clear is None or t_del is None or t_del < t_clear:
+            why = "the adaptor is not deleted once, after the buffers were returned (deleted: %s)" % dels
+        run.ob("R4", "global cache teardown folded: the previous string allocator is put back, every buffer (also those still in use) is returned once, then the adaptor is deleted", gd.site, not why,
+               witness={"calls": [list(x) for x in seq], "deleted": dels}, what=why)
+    except Unknown as u:
+        raise AnalysisBroken("C18.R4: the global cache cannot be folded: %s" % u)
     cd = prog.fn(CA + "::~" + CA)
     cs = [render(cd, c) for c in cd.calls()]
     run.ob("R4", "the cache returns its class table when destroyed", cd.site, "destroyInternalCacheNode(cache_)" in cs, witness=cs)
